@@ -6,48 +6,70 @@
     unRegisterCandidate, approveCandidate, rejectCandidate, authorizeForPeer, unAuthorizeForPeer,
     withdraw, quitNode, blackNode, whiteNode, commitDpos (normalQuit, blackQuit and the four
     *To*Consensus transitions), changeMaxAuthorization, addInitPos, reduceInitPos,
-    transferPenalty - valid and invalid (a failing transaction changes nothing).
-    Not modelled: the ONG side (candidate fee, unbound ONG, fee split: see C10), updateConfig /
-    updateGlobalParam* (parameters are fixed in a history), the *TransferFrom variants. *)
+    transferPenalty - valid and invalid (a failing transaction changes nothing), at arbitrary
+    heights (both sides of every height gate).
+    Outside the model: the ONG side (candidate fee, unbound ONG, fee split: see C10),
+    updateConfig / updateGlobalParam* (parameters are constant within a history), the
+    *TransferFrom variants of register/authorize. *)
 From Coq Require Import List NArith Bool.
 Import ListNotations.
-From Ont Require Import Lib.AList Gen.GovConsts Model.Gov Model.GovSpec Proofs.GovInv.
+From Ont Require Import Lib.AList Gen.GovConsts Model.Gov Model.GovSpec Proofs.GovInv Proofs.GovAcct
+  Proofs.GovAcct4 Proofs.GovAcct5.
 Local Open Scope N_scope.
 
-(** (1) The balance invariant is preserved by every transaction, valid or not.
-    [inv1] = [inv_balance] (ONT balance of governance = sum of total stakes + sum of penalty
-    stakes) together with "the ledger holds at most the total supply".  [op_ok]: the
-    transaction is not signed by the contract address itself. *)
+(** Hypotheses on a history:
+    - [funded]: after InitConfig the contract address holds the initPos that InitConfig recorded
+      as total stakes (InitConfig itself moves no ONT: see checks/C11.json);
+    - the ledger holds at most the total supply; genesis peers are distinct (CheckVBFTConfig);
+    - [params_ok]: penalty <= 100, MinAuthorizePos >= 1, 1 <= PosLimit < 2^32 (what the
+      update functions enforce; the InitConfig defaults satisfy it: [c11_init_params_ok]);
+    - [op_ok2]: no transaction is signed by the contract address itself, a transferPenalty does
+      not name the contract as destination, list amounts are uint32 (as the decoders enforce). *)
+Definition history_ok par (peers : list (N * N * N)) (ont : list (N * N)) (ops : list (N * op)) : Prop :=
+  nget GOV ont = sum_init peers /\ asum (fun _ x => x) ont <= ONT_TOTAL_SUPPLY /\
+  NoDup (peer_ids peers) /\ params_ok par /\ Forall (fun ho => op_ok2 (snd ho)) ops.
+
+(** The full statement. *)
+Definition c11_full_statement : Prop :=
+  forall par h0 peers ont ops, history_ok par peers ont ops ->
+  let s := run (genesis par h0 peers ont) ops in
+  (* the contract's ONT balance = all total stakes + all penalty stakes *)
+  gov_balance s = sum_stakes s + sum_pens s /\
+  (* per peer: TotalPos = sum of the authorizers' Consensus+Candidate+New positions *)
+  pool_pos_consistent s /\
+  (* per address: total stake = its positions in all six buckets + initPos of the peers it owns *)
+  inv_address s.
+
+Theorem c11_invariant_all_histories : c11_full_statement.
+Proof.
+  intros par h0 peers ont ops (Hf & Hs & Hd & Hp & Hall) s.
+  assert (I : inv3 s) by (apply run_inv3; [now apply genesis_inv3 | exact Hall]).
+  split; [apply (inv3_balance s I)|]. split; [apply (inv3_pool_pos s I) | apply (inv3_address s I)].
+Qed.
+Print Assumptions c11_invariant_all_histories.
+
+(** The inductive step on its own: [inv3] (the three clauses above plus the auxiliary facts that
+    make them inductive) is preserved by every transaction, valid or not. *)
+Theorem c11_step_preserves : forall (s : state) (h : N) (o : op),
+  inv3 s -> op_ok2 o -> inv3 (fst (step s (h, o))).
+Proof. intros s h o. exact (step_inv3 s (h, o)). Qed.
+Print Assumptions c11_step_preserves.
+
+Theorem c11_inv3_reads : forall s, inv3 s ->
+  gov_balance s = sum_stakes s + sum_pens s /\ pool_pos_consistent s /\ inv_address s.
+Proof.
+  intros s I. split; [apply (inv3_balance s I)|]. split; [apply (inv3_pool_pos s I) | apply (inv3_address s I)].
+Qed.
+Print Assumptions c11_inv3_reads.
+
+(** The balance clause alone needs less: it is preserved from any state in which it holds. *)
 Theorem c11_step_preserves_balance : forall (s : state) (h : N) (o : op),
   inv1 s -> op_ok o -> inv1 (fst (step s (h, o))).
 Proof. intros s h o. exact (step_inv1 s (h, o)). Qed.
 Print Assumptions c11_step_preserves_balance.
 
-(** (2) It holds after genesis once the contract address has been funded with the initPos that
-    InitConfig records as total stakes (InitConfig itself moves no ONT: see the note in
-    checks/C11.json). *)
-Theorem c11_genesis_balance : forall par h peers ont,
-  nget GOV ont = sum_init peers -> asum (fun _ x => x) ont <= ONT_TOTAL_SUPPLY ->
-  inv1 (genesis par h peers ont).
-Proof. exact genesis_inv1. Qed.
-Print Assumptions c11_genesis_balance.
-
-(** (3) Hence after any history of transactions (heights arbitrary). *)
-Theorem c11_balance_all_histories : forall par h0 peers ont (ops : list (N * op)),
-  nget GOV ont = sum_init peers -> asum (fun _ x => x) ont <= ONT_TOTAL_SUPPLY ->
-  Forall (fun ho => op_ok (snd ho)) ops ->
-  let s := run (genesis par h0 peers ont) ops in
-  gov_balance s = sum_stakes s + sum_pens s.
-Proof.
-  intros par h0 peers ont ops Hf Hs Hall s.
-  apply (run_inv1 ops (genesis par h0 peers ont)); auto. now apply genesis_inv1.
-Qed.
-Print Assumptions c11_balance_all_histories.
-
-(** (4) Withdraw clause: a successful withdraw by [a] pays [a] exactly the amount it removes from
-    [a]'s unfrozen buckets, from [a]'s recorded total stake and from governance's balance - so it
-    can exceed neither the unfrozen positions nor what [a] has deposited and not yet withdrawn.
-    [pos_small]: the amounts are uint32 values, as the decoder enforces. *)
+(** Withdraw clause (a): a successful withdraw by [a] pays [a] exactly the amount it removes from
+    [a]'s unfrozen buckets, from [a]'s recorded total stake and from governance's balance. *)
 Theorem c11_withdraw_bounded : forall h s sg a l wf s',
   inv1 s -> sg <> GOV -> pos_small l ->
   exec_withdraw h s sg a l wf = Ok s' ->
@@ -58,10 +80,34 @@ Theorem c11_withdraw_bounded : forall h s sg a l wf s',
 Proof. exact withdraw_bounded. Qed.
 Print Assumptions c11_withdraw_bounded.
 
+(** Withdraw clause (b): over any history, the ONT an address holds outside plus what is recorded
+    as its stake never grows (it shrinks only by penalties) - so no address can take out more
+    than it put in.  [not_paid a]: [a] is not the destination the admin names in a
+    transferPenalty (that is the one way ONT is handed to someone who did not stake it). *)
+Theorem c11_wealth_never_grows : forall par h0 peers ont ops a,
+  history_ok par peers ont ops -> a <> GOV ->
+  Forall (fun ho => not_paid a (snd ho)) ops ->
+  let s0 := genesis par h0 peers ont in
+  wealth a (run s0 ops) <= wealth a s0.
+Proof.
+  intros par h0 peers ont ops a (Hf & Hs & Hd & Hp & Hall) Ha Hnp s0.
+  apply run_wealth; auto.
+  - now apply genesis_inv1.
+  - rewrite Forall_forall in *. intros ho Hin. split; [apply (Hall ho Hin) | apply (Hnp ho Hin)].
+Qed.
+Print Assumptions c11_wealth_never_grows.
+
+(** The parameters InitConfig / getGlobalParam2 write satisfy [params_ok] (Gen/GovConsts.v is
+    regenerated from the source: other defaults are re-checked here). *)
+Theorem c11_init_params_ok : forall adm K mbcv mis sg,
+  params_ok (mkParams adm K mbcv INIT_CandidateNum mis INIT_PosLimit INIT_Penalty DEFAULT_MIN_AUTHORIZE_POS sg).
+Proof. intros. unfold params_ok. cbn. vm_compute. repeat split; discriminate || reflexivity. Qed.
+Print Assumptions c11_init_params_ok.
+
 (** Non-vacuity: a funded genesis with seven consensus peers; a node registers, opens itself to
     authorizations, an authorizer stakes, an epoch passes, the authorizer unauthorizes, two more
-    epochs pass and the authorizer withdraws.  Every transaction succeeds, the hypotheses of (3)
-    hold, and ONT really moved. *)
+    epochs pass and the authorizer withdraws.  Every transaction succeeds, the hypotheses hold,
+    and ONT really moved. *)
 Definition ex_par := mkParams 1 7 100000 INIT_CandidateNum 10000 INIT_PosLimit INIT_Penalty DEFAULT_MIN_AUTHORIZE_POS 0.
 Definition ex_peers : list (N * N * N) :=
   [(1, 3, 10000); (2, 3, 11000); (3, 4, 12000); (4, 4, 13000); (5, 3, 14000); (6, 4, 15000); (7, 3, 16000)].
@@ -78,16 +124,19 @@ Definition ex_ops : list (N * op) :=
 
 Example c11_nonvacuous :
   let s0 := genesis ex_par 500000 ex_peers ex_ont in
-  nget GOV ex_ont = sum_init ex_peers /\
-  Forall (fun ho => op_ok (snd ho)) ex_ops /\
+  history_ok ex_par ex_peers ex_ont ex_ops /\
   (* every transaction succeeds *)
   forallb (fun r => match r with ROk => true | _ => false end)
     (snd (fold_left (fun acc ho => let '(s, rs) := acc in let '(s', r) := step s ho in (s', rs ++ [r]))
                     ex_ops (s0, []))) = true /\
   let s := run s0 ex_ops in
-  gov_balance s = 124000 /\ sum_stakes s = 124000 /\ nget 8 (s_ont s) = 17000 /\ nget 5 (s_ont s) = 20000.
+  gov_balance s = 124000 /\ sum_stakes s = 124000 /\ nget 8 (s_ont s) = 17000 /\ nget 5 (s_ont s) = 20000 /\
+  total_of 8 s = 3000 /\ nget 8 (s_stakes s) = 3000.
 Proof.
-  cbv zeta. split; [vm_compute; reflexivity|]. split.
-  - repeat constructor; cbn; discriminate.
+  cbv zeta. split; [|split].
+  - unfold history_ok. split; [vm_compute; reflexivity|]. split; [vm_compute; discriminate|].
+    split; [repeat constructor; cbn; intuition discriminate|]. split; [apply c11_init_params_ok|].
+    repeat constructor; cbn; try discriminate; vm_compute; reflexivity.
+  - vm_compute. reflexivity.
   - vm_compute. repeat split; reflexivity.
 Qed.
